@@ -214,3 +214,80 @@ theorem whileF_done (cond : V → Option Bool) (body : V → Res V R) (f : Nat) 
   simp [whileF, hc]
 
 end Py
+
+namespace Py.Dict
+variable {κ ν : Type} [DecidableEq κ]
+
+theorem contains_iff (d : Dict κ ν) (k : κ) : contains d k = true ↔ k ∈ d.map (·.1) := by
+  unfold contains get?
+  induction d with
+  | nil => simp
+  | cons p d ih =>
+    simp only [List.find?_cons, List.map_cons, List.mem_cons]
+    by_cases h : p.1 = k
+    · simp [h]
+    · have h' : ¬ k = p.1 := fun c => h c.symm
+      simp only [h, decide_false, Bool.false_eq_true, if_false, h', false_or] at *
+      exact ih
+
+theorem mem_setdefault (d : Dict κ ν) (k : κ) (v : ν) (q : κ × ν) :
+    q ∈ setdefault d k v ↔ q ∈ d ∨ (k ∉ d.map (·.1) ∧ q = (k, v)) := by
+  unfold setdefault
+  by_cases h : contains d k = true
+  · have := (contains_iff d k).1 h
+    simp [h, this]
+  · have hn : k ∉ d.map (·.1) := fun c => h ((contains_iff d k).2 c)
+    simp [h, hn]
+
+theorem mem_set_of_mem (d : Dict κ ν) (k : κ) (v : ν) (hk : k ∈ d.map (·.1)) (q : κ × ν) :
+    q ∈ set d k v ↔ (q ∈ d ∧ q.1 ≠ k) ∨ q = (k, v) := by
+  unfold set
+  rw [if_pos ((contains_iff d k).2 hk)]
+  simp only [List.mem_map]
+  constructor
+  · rintro ⟨p, hp, rfl⟩
+    by_cases h : p.1 = k
+    · simp [h]
+    · simp [h, hp]
+  · rintro (⟨hq, hne⟩ | rfl)
+    · exact ⟨q, hq, by simp [hne]⟩
+    · obtain ⟨p, hp, hpk⟩ := List.mem_map.1 hk
+      exact ⟨p, hp, by simp [hpk]⟩
+
+theorem keys_set_of_mem (d : Dict κ ν) (k : κ) (v : ν) (hk : k ∈ d.map (·.1)) (k' : κ) :
+    k' ∈ (set d k v).map (·.1) ↔ k' ∈ d.map (·.1) := by
+  simp only [List.mem_map]
+  constructor
+  · rintro ⟨q, hq, rfl⟩
+    rcases (mem_set_of_mem d k v hk q).1 hq with ⟨h, _⟩ | rfl
+    · exact ⟨q, h, rfl⟩
+    · simpa using hk
+  · rintro ⟨q, hq, rfl⟩
+    by_cases h : q.1 = k
+    · exact ⟨(k, v), (mem_set_of_mem d k v hk _).2 (Or.inr rfl), h.symm⟩
+    · exact ⟨q, (mem_set_of_mem d k v hk q).2 (Or.inl ⟨hq, h⟩), rfl⟩
+
+theorem get?_of_forall (d : Dict κ ν) (f : κ → ν) (h : ∀ p ∈ d, p.2 = f p.1) (k : κ) (hk : k ∈ d.map (·.1)) :
+    get? d k = some (f k) := by
+  induction d with
+  | nil => simp at hk
+  | cons p d ih =>
+    rw [get?_cons]
+    by_cases hp : p.1 = k
+    · simp only [hp, if_true]
+      rw [← hp]
+      exact congrArg some (h p List.mem_cons_self)
+    · simp only [hp, if_false]
+      simp only [List.map_cons, List.mem_cons] at hk
+      rcases hk with hk | hk
+      · exact absurd hk.symm hp
+      · exact ih (fun q hq => h q (List.mem_cons_of_mem _ hq)) hk
+
+theorem get?_none_of_not_mem (d : Dict κ ν) (k : κ) (hk : k ∉ d.map (·.1)) : get? d k = none := by
+  have : contains d k ≠ true := fun c => hk ((contains_iff d k).1 c)
+  unfold contains at this
+  cases h : get? d k with
+  | none => rfl
+  | some x => simp [h] at this
+
+end Py.Dict
